@@ -343,6 +343,23 @@ def cross_check(rep):
             if mine != real["ok"][sec][fld]:
                 raise Inconclusive("C20 cross-check: %s %s.%s: interpreter %r, real code %r" % (lang, sec, fld, mine, real["ok"][sec][fld]))
             n += 1
+    # concrete probe of the -g round trip through the real store_config / load_config (toml is not encoded symbolically)
+    import shutil, tempfile
+    full = ('[swift]\nprefix = "P"\ndefault_decorators = ["Sendable", "Equatable"]\ndefault_generic_constraints = ["Sendable"]\ncodablevoid_constraints = ["Equatable"]\n[swift.type_mappings]\nUrl = "URL"\n'
+            '[typescript.type_mappings]\nDateTime = "Date"\n"Vec<u8>" = "Uint8Array"\n[kotlin]\npackage = "com.k"\nmodule_name = "m"\nprefix = "K"\n[kotlin.type_mappings]\nA = "B"\n'
+            '[scala]\npackage = "com.s"\nmodule_name = "sm"\n[scala.type_mappings]\nC = "D"\n[python.type_mappings]\nE = "F"\n[go]\npackage = "gp"\nuppercase_acronyms = ["ID", "URL"]\nno_pointer_slice = true\n[go.type_mappings]\nG = "H"\n')
+    for text in (full, "", '[swift]\nprefix = ""\n[go]\npackage = "x"\n'):
+        d = tempfile.mkdtemp(prefix="c20-rt-")
+        try:
+            r = drv().ask({"op": "roundtrip", "toml": text, "dir": d})
+        finally:
+            shutil.rmtree(d, ignore_errors=True)
+        if "ok" not in r:
+            raise Inconclusive("C20 round-trip probe could not run: %s" % (str(r)[:300],))
+        if not r["ok"]["same"]:
+            diff = {k: (r["ok"]["before"][k], r["ok"]["after"].get(k)) for k in r["ok"]["before"] if r["ok"]["before"][k] != r["ok"]["after"].get(k)}
+            rep.violation({"group": "roundtrip", "kind": "generated-config-does-not-reload"}, "a configuration written by store_config reloads differently: %s" % (str(diff)[:400],), {"op": "roundtrip", "toml": text})
+    rep.extra["roundtrip_probe"] = "3 concrete configurations through the real store_config + load_config reload equal (concrete probe, not a solver verdict)"
     rep.extra["cross_check"] = "%d effective values equal between the MIR interpreter and the real toml+clap+override_configuration" % n
 
 
@@ -362,7 +379,7 @@ def run(rep, tier, only=None):
     rep.bounds = {"options": [o[0] for o in OPTIONS], "presence": "every subset of the seven options on the command line (all 128, both tiers)",
                   "values": "CLI and file values symbolic strings over [A-Za-z.]; (CLI length, file length) in quick: (0,1),(1,1),(1,0); thorough: all of {0,1,2}^2", "languages": langs,
                   "store_config": "existing / missing target, explicit / default path", "find_configuration_file": "cwd depth 0..4, presence in every ancestor symbolic"}
-    rep.outside = ["TOML serialisation / deserialisation (toml crate; not modelled) and therefore the -g round trip", "clap's argument parsing"]
+    rep.outside = ["TOML serialisation / deserialisation (toml crate) is not encoded: the -g round trip is only probed concretely (three configurations through the real store_config + load_config on every run)", "clap's argument parsing"]
     rep.assumptions = ["toml::to_string_pretty is a stub returning an opaque non-empty text", "Config / Args values are built directly (clap and toml are not executed)"]
     tcases = [(l, m, f) for l in ("Swift", "Kotlin", "Scala", "TypeScript", "Go", "Python") for m in (False, True) for f in (False, True)]
     rep.bounds["tables"] = "type_mappings of all six sections, Swift default_decorators / codablevoid_constraints / default_generic_constraints, Go uppercase_acronyms / no_pointer_slice with symbolic entries: each reaches the back-end value of its own language unchanged; multi_file reaches Swift"
@@ -574,6 +591,9 @@ def replay(body):
             else:
                 r = real_effective(c["lang"], c["present"], c["cli"], c["file"])
                 ok, why = (("rejected" in r) != (c["expect"] == "rejected")), str(r)
+        elif c["op"] == "roundtrip":
+            r = drv().ask({"op": "roundtrip", "toml": c["toml"], "dir": d})
+            ok, why = ("ok" in r and not r["ok"]["same"]), str(r)[:400]
         elif c["op"] == "tables":
             ok, why, _ = native_cli("tables", (c["lang"], c["multi"], c["flag"]), {"setting": c["setting"]})
         elif c["op"] == "store_config":
